@@ -40,7 +40,7 @@ TSpendable == IsEvent("spendable") /\ Spendable(R.node, R.outs)
 TSweep == IsEvent("sweep") /\
   Sweep(R.node, R.tx, TxRec(R.node, R.ins, [k \in 1..Len(R.ins) |-> FALSE], <<TRUE>>, 0,
                             R.valid, R.final, TRUE, FALSE, R.h, 0, 1, 0),
-        R.ok /\ R.valid /\ R.final /\ R.fee >= 0)
+        ToSet(R.req), R.ok /\ R.valid /\ R.final /\ R.fee >= 0)
 TBal == IsEvent("bal") /\ Balances(R.node, R.items)
 TState == IsEvent("state") /\ Checkpoint(R.h)
 TFinal == IsEvent("final") /\ Final(R)
@@ -52,7 +52,8 @@ TRewind == IsEvent("rewind") /\ Rewind(R.h, ToSet(R.evicted))
 TRebroadcast == IsEvent("rebroadcast") /\ Rebroadcast(R.node)
 TFeerate == IsEvent("feerate") /\ Feerate(R.node, R.v)
 TGaveUp == IsEvent("ldk_log") /\ GaveUp(R.node)
-TSilent == l <= Len(Rec) /\ Rec[l].ev \in {"reload"} /\ l' = l + 1 /\ Silent
+\* (close2: a second channel of the node goes to the chain; its transactions follow as broadcasts)
+TSilent == l <= Len(Rec) /\ Rec[l].ev \in {"reload", "close2"} /\ l' = l + 1 /\ Silent
 \* `panic` and `commit_unknown` have no action: a run containing one is rejected
 
 TraceNext == TOpen \/ TBcast \/ TCommit \/ TBlock \/ TIdle \/ TJump \/ TPreimage \/ TSpendable \/ TSweep
